@@ -451,8 +451,18 @@ def check_inlined_bounds(idx, run):
         loc(mod, upd))
 
 
+
+GUARDED = [
+    ("psyclone.psyir.backend.fortran.FortranWriter", "gen_decls"),
+    ("psyclone.psyir.backend.fortran.FortranWriter", "_gen_parameter_decls"),
+    ("psyclone.psyir.backend.fortran.FortranWriter", "gen_vardecl"),
+    ("psyclone.psyir.backend.fortran.FortranWriter", "routine_node"),
+]
+
 def check(idx, run):
     run.explanation = __doc__
+    from sa.guards import check_guards
+    check_guards(idx, run, "C04.R5", GUARDED)
     check_params(idx, run)
     check_partition(idx, run)
     check_scope_merge(idx, run)
